@@ -96,4 +96,130 @@ theorem fracDigits_isDigit {fz fm : Nat} {c : Char} (h : c ∈ fracDigits fz fm)
     subst this; decide
   · exact digits_isDigit h
 
+/-! ### tokens -/
+
+theorem okRest_not_digit {rest : List Char} (h : okRest rest = true) : headNot Char.isDigit rest = true :=
+  okRest_headNot h (by decide) (by decide) (by decide)
+
+theorem okRest_not_idChar {rest : List Char} (h : okRest rest = true) : headNot isIdChar rest = true :=
+  okRest_headNot h (by decide) (by decide) (by decide)
+
+theorem pExp_okRest (neg : Bool) (mant : Rat) {rest : List Char} (h : okRest rest = true) :
+    pExp neg mant rest = some (.num (applySign neg mant), rest) := by
+  cases rest with
+  | nil => rfl
+  | cons c r =>
+    have h' : c = ',' ∨ c = ']' ∨ c = ')' := by simpa [okRest, or_assoc] using h
+    rcases h' with rfl | rfl | rfl <;> simp [pExp]
+
+theorem pExp_render (neg : Bool) (mant : Rat) (ex : Option (Bool × Nat)) {rest : List Char}
+    (h : okRest rest = true) :
+    pExp neg mant (renderExp ex ++ rest) = some (.num (applySign neg (denoteExp mant ex)), rest) := by
+  cases ex with
+  | none => simpa [renderExp, denoteExp] using pExp_okRest neg mant h
+  | some e =>
+    obtain ⟨eneg, e⟩ := e
+    have hsp : spanP Char.isDigit (digits e ++ rest) = (digits e, rest) :=
+      span_append_of_all (fun c hc => digits_isDigit hc) (okRest_not_digit h)
+    have hne : (digits e).isEmpty = false := by
+      cases hd : digits e with
+      | nil => exact absurd hd (digits_ne_nil e)
+      | cons _ _ => rfl
+    cases eneg with
+    | true =>
+      simp only [renderExp, if_true, List.cons_append, List.nil_append, pExp]
+      simp [hsp, hne, natOf_digits, denoteExp]
+    | false =>
+      obtain ⟨c, r, hd, hc⟩ := digits_head_isDigit e
+      have hc1 : c ≠ '-' := by rintro rfl; simp at hc
+      have hc2 : c ≠ '+' := by rintro rfl; simp at hc
+      have hsp' : spanP Char.isDigit (c :: (r ++ rest)) = (digits e, rest) := by
+        rw [← List.cons_append, ← hd]; exact hsp
+      simp only [renderExp, List.cons_append, List.nil_append, pExp, hd]
+      simp [hsp', hne, natOf_digits, denoteExp, hc1, hc2]
+
+/-- an integer token -/
+theorem pNumber_int (neg : Bool) (n : Nat) {rest : List Char} (h : okRest rest = true) :
+    pNumber neg (digits n ++ rest) = some (.int (if neg then -(n : Int) else (n : Int)), rest) := by
+  have hsp : spanP Char.isDigit (digits n ++ rest) = (digits n, rest) :=
+    span_append_of_all (fun c hc => digits_isDigit hc) (okRest_not_digit h)
+  have hne : (digits n).isEmpty = false := by
+    cases hd : digits n with
+    | nil => exact absurd hd (digits_ne_nil n)
+    | cons _ _ => rfl
+  have hz := digits_leading_zero_ok n
+  unfold pNumber
+  simp only [hsp, hne]
+  cases rest with
+  | nil => simp [hz, natOf_digits]
+  | cons c r =>
+    have h' : c = ',' ∨ c = ']' ∨ c = ')' := by simpa [okRest, or_assoc] using h
+    rcases h' with rfl | rfl | rfl <;> simp [hz, natOf_digits]
+
+/-- a decimal token -/
+theorem pNumber_dec (neg : Bool) (ip fz fm : Nat) (ex : Option (Bool × Nat)) {rest : List Char}
+    (h : okRest rest = true) :
+    pNumber neg (digits ip ++ '.' :: fracDigits fz fm ++ renderExp ex ++ rest) =
+      some (.num (applySign neg (denoteExp ((ip : Rat) + (fm : Rat) / pow10 (fracDigits fz fm).length) ex)), rest) := by
+  have hsp : spanP Char.isDigit (digits ip ++ ('.' :: fracDigits fz fm ++ renderExp ex ++ rest)) =
+      (digits ip, '.' :: fracDigits fz fm ++ renderExp ex ++ rest) :=
+    span_append_of_all (fun c hc => digits_isDigit hc) (by simp [headNot])
+  have hne : (digits ip).isEmpty = false := by
+    cases hd : digits ip with
+    | nil => exact absurd hd (digits_ne_nil ip)
+    | cons _ _ => rfl
+  have hfr : headNot Char.isDigit (renderExp ex ++ rest) = true := by
+    cases ex with
+    | none => simpa [renderExp] using okRest_not_digit h
+    | some e => simp [renderExp, headNot]
+  have hsp2 : spanP Char.isDigit (fracDigits fz fm ++ (renderExp ex ++ rest)) =
+      (fracDigits fz fm, renderExp ex ++ rest) :=
+    span_append_of_all (fun c hc => fracDigits_isDigit hc) hfr
+  unfold pNumber
+  simp only [List.append_assoc, List.cons_append] at hsp ⊢
+  simp only [hsp, hne]
+  simp only [hsp2, natOf_digits, natOf_fracDigits]
+  exact pExp_render neg _ ex h
+
+theorem pString_render (dq : Bool) (body : List Char) (rest : List Char)
+    (hwf : body.all (fun c => c != quoteChar dq && c != '\\' && c != '\n') = true) :
+    pString (quoteChar dq) (body ++ quoteChar dq :: rest) = some (.str (String.ofList body), rest) := by
+  have hall : ∀ c ∈ body, (c != quoteChar dq) = true ∧ c ≠ '\\' ∧ c ≠ '\n' := by
+    intro c hc
+    have := List.all_eq_true.mp hwf c hc
+    simpa [Bool.and_eq_true, and_assoc] using this
+  have hsp : spanP (· != quoteChar dq) (body ++ quoteChar dq :: rest) = (body, quoteChar dq :: rest) :=
+    span_append_of_all (fun c hc => (hall c hc).1) (by simp [headNot])
+  have hany : body.any (fun c => c == '\\' || c == '\n') = false := by
+    rw [List.any_eq_false]
+    intro c hc
+    have := hall c hc
+    simp [this.2.1, this.2.2]
+  unfold pString
+  simp [hsp, hany]
+
+theorem pKeyword_none {rest : List Char} (h : okRest rest = true) :
+    pKeyword ("None".toList ++ rest) = some (.none, rest) := by
+  have hsp : spanP isIdChar ("None".toList ++ rest) = ("None".toList, rest) :=
+    span_append_of_all (by decide) (okRest_not_idChar h)
+  unfold pKeyword
+  simp [hsp]
+
+theorem pKeyword_true {rest : List Char} (h : okRest rest = true) :
+    pKeyword ("True".toList ++ rest) = some (.bool true, rest) := by
+  have hsp : spanP isIdChar ("True".toList ++ rest) = ("True".toList, rest) :=
+    span_append_of_all (by decide) (okRest_not_idChar h)
+  have : ("True".toList = "None".toList) = False := by decide
+  unfold pKeyword
+  simp [hsp, this]
+
+theorem pKeyword_false {rest : List Char} (h : okRest rest = true) :
+    pKeyword ("False".toList ++ rest) = some (.bool false, rest) := by
+  have hsp : spanP isIdChar ("False".toList ++ rest) = ("False".toList, rest) :=
+    span_append_of_all (by decide) (okRest_not_idChar h)
+  have h1 : ("False".toList = "None".toList) = False := by decide
+  have h2 : ("False".toList = "True".toList) = False := by decide
+  unfold pKeyword
+  simp [hsp, h1, h2]
+
 end PyxelModel.C08
